@@ -33,7 +33,7 @@ VALUES = [0, 1.5, "text", "", [1, 2, {"a": None}], {"k": [True, False]}, None]
 def make_jobs(rng: Rng, n: int) -> list[dict]:
     jobs = []
     for i in range(n):
-        kind = rng.choice(["ret", "chain", "chain-ok", "eager", "disabled", "exc"])
+        kind = rng.choice(["ret", "chain", "chain-ok", "eager", "disabled", "exc", "recurring"])
         j = {"id": f"r{i}", "retries": 0, "store_result": kind != "disabled", "timeout": 2 * S,
              "result_ttl": rng.choice([S, 60 * S, 86400 * S])}
         v = rng.choice(VALUES)
@@ -41,6 +41,11 @@ def make_jobs(rng: Rng, n: int) -> list[dict]:
             j["plan"] = [{"k": "ret", "value": v}]
         elif kind == "exc":
             j["plan"] = [{"k": "raise", "msg": f"bad {i}"}]
+        elif kind == "recurring":
+            # a recurring job: every iteration is an execution of its own and overwrites the bucket of the one before
+            j["defer_by"] = rng.choice([1 * S, 2 * S])
+            j["plan"] = [({"k": "ret", "value": f"it{k}-{i}"} if rng.random() < 0.7 else {"k": "raise", "msg": f"it{k}-{i} failed"})
+                         for k in range(12)]
         elif kind == "chain":
             j["retries"] = rng.choice([1, 2, 3])
             j["plan"] = [{"k": "raise", "msg": f"e{k}"} for k in range(j["retries"] + 1)]
